@@ -92,9 +92,9 @@ func TestC07(t *testing.T) {
 	ctx := genCtx(t)
 
 	// (a) concurrent writers on one connection, transport stalls in mid-write
-	n := rec.N(300, 20000)
+	n := rec.N(300, 100000)
 	if rec.Race() {
-		n = rec.N(150, 4000)
+		n = rec.N(150, 20000)
 	}
 	rec.Suite("concurrent-writers", n, func(c *ev.Case) {
 		r := c.R
@@ -207,7 +207,7 @@ func TestC07(t *testing.T) {
 	})
 
 	// (a') the same over a real loopback TCP socket (kernel buffers, real scheduler)
-	rec.Suite("concurrent-writers-tcp", rec.N(24, 2000), func(c *ev.Case) {
+	rec.Suite("concurrent-writers-tcp", rec.N(24, 6000), func(c *ev.Case) {
 		r := c.R
 		ln, err := net.Listen("tcp", "127.0.0.1:0")
 		if err != nil {
@@ -295,7 +295,7 @@ func TestC07(t *testing.T) {
 	ks := []int{0, 1, 19, 20, 21, -2} // -2 = len-1
 	maxLen := 3
 	if !rec.Quick() {
-		maxLen = 4
+		maxLen = 5
 	}
 	var build func(cur []step)
 	build = func(cur []step) {
